@@ -2,8 +2,10 @@
 // GEOSisValid, GEOSisSimple, GEOSisRing; plus the property's own invariance oracle run directly against GEOS
 // (verdicts must not change under exact lattice maps, ring rotation / reversal, hole / element permutation).
 //   c05 valid-grid <seed> <n> <outbase>
+//   c05 node-topo <seed> <n> <outbase>    the real PolygonNodeTopology functions on integer points vs the Lean copy
 //   c05 replay <file>     lines: "V | <geom tokens> | ..."  or bare "<srid> <geom tokens>"  or "W <wkt>"
 #include "validgen.h"
+#include <geos/algorithm/PolygonNodeTopology.h>
 #include <fstream>
 #include <iostream>
 using namespace vh;
@@ -86,6 +88,21 @@ int main(int argc, char** argv) {
         GEOS_finish_r(h); return 0; }
     if (argc < 5) return 2;
     uint64_t seed = std::stoull(argv[2]); long n = std::stol(argv[3]); Out out(argv[4]); Rng r(seed);
+    if (stream == "node-topo") {
+        // the real PolygonNodeTopology on small integer points (dense in collinear / same-direction / axis cases):
+        // expect = compareAngle(o,a0,a1) compareAngle(o,b0,a0) isCrossing(o,a0,a1,b0,b1) isInteriorSegment(o,a0,a1,b0) isInteriorSegment(o,a0,a1,b1)
+        using geos::algorithm::PolygonNodeTopology; using geos::geom::CoordinateXY;
+        for (long i = 0; i < n; i++) {
+            int span = r.chance(70) ? 2 : (r.chance(50) ? 4 : 1000); long big = r.chance(10) ? (1L << 24) : 0;
+            auto pt = [&](CoordinateXY& c) { c.x = (double) (r.range(-span, span) + big); c.y = (double) (r.range(-span, span) - big); };
+            CoordinateXY o, p[4]; pt(o); for (auto& q : p) { do { pt(q); } while (q.x == o.x && q.y == o.y); }
+            std::string c = "N"; auto add = [&](const CoordinateXY& q) { c += " " + std::to_string((long) q.x) + " " + std::to_string((long) q.y); }; add(o); for (auto& q : p) add(q);
+            int c01 = PolygonNodeTopology::compareAngle(&o, &p[0], &p[1]); int cb = PolygonNodeTopology::compareAngle(&o, &p[2], &p[0]);
+            bool cr = PolygonNodeTopology::isCrossing(&o, &p[0], &p[1], &p[2], &p[3]);
+            bool i0 = PolygonNodeTopology::isInteriorSegment(&o, &p[0], &p[1], &p[2]); bool i1 = PolygonNodeTopology::isInteriorSegment(&o, &p[0], &p[1], &p[3]);
+            out.count(cr ? "crossing_1" : "crossing_0"); out.count("cmp_" + std::to_string(c01));
+            out.emit(c, std::to_string(c01) + " " + std::to_string(cb) + " " + (cr ? "1" : "0") + " " + (i0 ? "1" : "0") + " " + (i1 ? "1" : "0")); }
+        GEOS_finish_r(h); return 0; }
     ValidGen gen(r, h, &out);
     for (long i = 0; i < n; i++) {
         std::string family; HGeo hg;
